@@ -222,3 +222,55 @@ def _find_throw_path(prog, start, throwers, nothrow):
             if c in prog.functions or c in prog.ext_edges:
                 dq.append(c)
     return None
+
+
+# =================================================================================================
+# E2 MACRO-BODY: a multi-statement macro is never the unbraced body of a control statement  (C04 C05 C11)
+MULTI_STATEMENT_MACROS = ("DSPLIB_THROW", "DSPLIB_ASSUME")
+
+
+def rule_E2(prog, fixture=False):
+    from .core import RuleResult, DISCHARGED, VIOLATED
+    from .rules_state import fkey
+    res = RuleResult("E2", "DSPLIB_THROW (under DSPLIB_NO_EXCEPTIONS: `std::cerr << ...; std::abort();`) and DSPLIB_ASSUME (`assert(c); "
+                           "__builtin_assume(c)`) expand to more than one statement: as the unbraced body of an if / else / for / while only "
+                           "the first statement is guarded - in the no-exceptions build the abort() behind `if (bad) DSPLIB_THROW(...)` runs "
+                           "on every call")
+    n = 0
+    bad = 0
+    for f in sorted(prog.functions.values(), key=lambda f: (f.file, f.line, f.name)):
+        if f.get("implicit") or f.file.endswith("coverage.cc"):
+            continue
+        rel = prog.rel(f.file)
+        if not fixture and not (rel.startswith("lib/") or rel.startswith("include/")):
+            continue
+        for x in f.walk():
+            if not x.macros or not any(m in MULTI_STATEMENT_MACROS for m in x.macros):
+                continue
+            # the outermost node of this expansion
+            top = x
+            while top.parent is not None and top.parent.macros and any(m in MULTI_STATEMENT_MACROS for m in top.parent.macros):
+                top = top.parent
+            if top.id != x.id:
+                continue
+            n += 1
+            par = top.parent
+            while par is not None and par.k in ("ExprWithCleanups", "ImplicitCastExpr", "ParenExpr"):
+                top, par = par, par.parent
+            if par is None or par.k == "CompoundStmt":
+                continue
+            if par.k in ("IfStmt", "ForStmt", "WhileStmt", "DoStmt", "CXXForRangeStmt"):
+                roles = [par.role(r) for r in ("then", "else", "body")]
+                if any(r is not None and r.id == top.id for r in roles):
+                    # DSPLIB_ASSERT wraps its DSPLIB_THROW in braces itself: an expansion inside another macro's own braces is fine
+                    bad += 1
+                    res.add("E2:%s:%d" % (fkey(f), x.line), VIOLATED, "%s:%d" % (rel, x.line), "%s in %s" % (x.macros[0], f.short),
+                            "%s is the unbraced body of the %s at line %d: with DSPLIB_NO_EXCEPTIONS only `std::cerr << ...` is guarded and "
+                            "std::abort() runs unconditionally (for DSPLIB_ASSUME: the compiler assumption holds on every path)"
+                            % (x.macros[0], par.k, par.line), func=f.name, extra={"props": ["C05", "C04", "C11"]})
+    res.add("E2:all", DISCHARGED, "-", "%d expansions of DSPLIB_THROW / DSPLIB_ASSUME" % n,
+            "each is a statement of a braced block" if not bad else "%d unbraced" % bad, extra={"props": ["C05", "C04", "C11"]})
+    res.stats["expansions"] = n
+    if not n and not fixture:
+        res.broken.append("anchor vanished: no expansion of DSPLIB_THROW / DSPLIB_ASSUME found")
+    return res
